@@ -110,6 +110,8 @@ class Flow:
         x = c
         while x[0] == 'op' and x[1] == 'not':
             x = x[2][0]
+        if x[0] == 'op' and x[1] in ('and', 'or'):
+            return all(self.structural(y) for y in x[2])
         if is_int_cmp(x, self.ctx):
             return True
         if x[0] == 'is_some':
@@ -180,7 +182,7 @@ class Flow:
         t = self.m.up_fields.get(cell)
         if t is None:
             return []
-        cs = cases_deep(t) if deep else cases(t)
+        cs = cases_deep(t, 300) if deep else cases(t)
         return [(conds, leaf) for conds, leaf in cs if self.feasible(conds)]
 
     # ------------------------------------------------------------------ W1 exact window
@@ -219,7 +221,7 @@ class Flow:
         work = list(cs)
         cs2 = []
         guard_n = 0
-        while work and guard_n < 4000:
+        while work and guard_n < 400:
             guard_n += 1
             conds, leaf = work.pop()
             rc = tuple(self.resolve(c, conds) for c in conds)
@@ -238,6 +240,9 @@ class Flow:
                 nc = rc + (extra,)
                 if self.feasible(nc):
                     work.append((nc, leaf))
+        if work:
+            res['why'] = 'too many cases'
+            return res
         parsed = []
         for conds, leaf in cs2:
             if not self.delivering(conds):
@@ -436,53 +441,45 @@ class Flow:
                             if evicting:
                                 bad = True
                     if bad:
-                        return kind, False, 'the rescan runs over the window that still contains the evicted value: %s' % tstr(seq)[:70]
+                        return kind or 'scan', False, 'the rescan runs over the window that still contains the evicted value: %s' % tstr(seq)[:70]
         if scans == 0:
             return None, False, 'no rescan'
-        # X1: when a value leaves and the result still depends on the stored extremum, the path condition must
-        # exclude that the evicted value is the stored extremum
+        # X1: in every case in which a value leaves the window and the stored extremum survives, the path
+        # condition must entail that the evicted value is not equal to the stored extremum
+        from .terms import relation
         for conds, leaf in cs:
             if not self.delivering(conds):
                 continue
-            evicting = any(g in conds or g == TRUE for g in guards)
-            if not evicting:
-                continue
             val = leaf[1] if leaf[0] == 'some' else leaf
-            depends = any(x in selfv for x in subterms(val)) or leaf == ('in', cell) or any(
-                x in selfv for c in conds if not self.mentions_evicted(c) for x in subterms(c)) and val in vs
             keeps = any(x in selfv for x in subterms(val)) or leaf == ('in', cell)
             if not keeps:
-                # value is the new element: fine only if it was compared against a fresh extremum; the comparison
-                # operand must then not be the stale stored extremum unless the evicted value is excluded
-                stale_cmp = False
-                for c in conds:
-                    if self.mentions_evicted(c):
-                        continue
-                    if any(x in vs for x in subterms(c)) and any(x in selfv for x in subterms(c)):
-                        stale_cmp = True
-                if not stale_cmp:
+                continue
+            for q, info in self.queues.items():
+                if info['E'] is None or info['G'] is None:
                     continue
-            excluded = False
-            for c in conds:
-                if self.mentions_evicted(c) and any(x in selfv for x in subterms(c)):
-                    # a comparison between evicted element and stored extremum that rules out equality
-                    x = c
-                    negd = False
-                    while x[0] == 'op' and x[1] == 'not':
-                        negd = not negd
-                        x = x[2][0]
-                    if x[0] == 'op' and x[1] in ('eq', 'le', 'ge', 'lt', 'gt', 'ne'):
-                        rel = x[1]
-                        if negd:
-                            rel = {'eq': 'ne', 'le': 'gt', 'ge': 'lt', 'lt': 'ge', 'gt': 'le', 'ne': 'eq'}[rel]
-                        if rel in ('ne', 'gt', 'lt'):
+                H = self.base.extended(list(conds) + ([info['G']] if info['G'] != TRUE else []))
+                if H.cube.dead or H.cube.theory_unsat():
+                    continue  # no eviction possible in this case
+                E = info['E']
+                # comparison atoms between the evicted element and the stored extremum that occur in the conditions
+                atoms = set()
+                for c in conds:
+                    for x in subterms(c):
+                        if x[0] == 'op' and x[1] in ('eq', 'ne', 'lt', 'le', 'gt', 'ge') and len(x[2]) == 2:
+                            a0, b0 = x[2]
+                            if (a0 == E and any(y in selfv for y in subterms(b0))) or (b0 == E and any(y in selfv for y in subterms(a0))):
+                                atoms.add(x)
+                excluded = False
+                for a_ in atoms:
+                    m_ = a_[2][1] if a_[2][0] == E else a_[2][0]
+                    for pol in (True, False):
+                        lit_ = a_ if pol else neg_cond(a_)
+                        rel = relation(lit_, E, m_)
+                        if rel is not None and '=' not in rel and entails_h(H, lit_):
                             excluded = True
-                    elif x[0] == 'op' and x[1] in ('or', 'and'):
-                        # ¬(E <= min ∨ E >= max): both excluded
-                        if negd and x[1] == 'or':
-                            excluded = True
-            if not excluded:
-                return kind, False, 'a value leaves the window and the stored extremum survives although the evicted value may have been that extremum (case %s)' % [tstr(c)[:45] for c in conds][-4:]
+                if not excluded:
+                    return kind or 'scan', False, ('a value leaves the window and the stored extremum survives although the evicted value may '
+                                         'have been that extremum (case %s)' % [tstr(c)[:45] for c in conds][-3:])
         return kind or 'scan', True, 'rescanned over the post-eviction window whenever the evicted value may be the extremum'
 
     # ------------------------------------------------------------------ holds
